@@ -366,6 +366,7 @@ type v2ChunkReader struct {
 	failAt  int   // fail with failErr once this many bytes were delivered (-1: never)
 	failErr error
 	once    bool // the fault is transient: the Read after it succeeds again (a timeout)
+	withErr bool // the fault is reported by the same Read that delivers the last bytes before it (n > 0, err != nil)
 	failed  bool
 	sent    int
 }
@@ -399,6 +400,10 @@ func (r *v2ChunkReader) Read(p []byte) (int, error) {
 	copy(p, r.data[:n])
 	r.data = r.data[n:]
 	r.sent += n
+	if r.withErr && r.failAt >= 0 && r.sent >= r.failAt {
+		r.failed = true
+		return n, r.failErr
+	}
 	if len(r.data) == 0 && r.withEOF {
 		return n, io.EOF
 	}
@@ -500,6 +505,9 @@ func (vt *v2T) scenC08() {
 				offs = append(offs, vt.rng.Intn(len(content)+1))
 			}
 			offs = append(offs, 0, 1020, 1023, 1024, 1025, 2040, 2044, 2048, len(content))
+			for k := 0; 1024+1020*k <= len(content); k++ { // faults exactly where a buffer pass ends
+				offs = append(offs, 1024+1020*k)
+			}
 		}
 		for k, o := range offs {
 			o := o
@@ -509,6 +517,17 @@ func (vt *v2T) scenC08() {
 			vt.match(c, content, v2MatchOpts{api: "MatchFrom", reader: func(data []byte) (interface{ Read([]byte) (int, error) }, string) {
 				return &v2ChunkReader{data: data, chunks: fr, failAt: o, failErr: e, once: once}, e.Error()
 			}})
+			// the same fault reported together with the last bytes before it, by a reader that then says EOF; and a reader
+			// whose own error is io.ErrUnexpectedEOF (a truncated compressed stream): a failure, not the end of the input
+			if k%3 == 0 && o > 0 {
+				fr2 := []int{[]int{4096, 1024, 512, 1 << 20}[(k/3)%4]}
+				vt.match(c, content, v2MatchOpts{api: "MatchFrom", reader: func(data []byte) (interface{ Read([]byte) (int, error) }, string) {
+					return &v2ChunkReader{data: data, chunks: fr2, failAt: o, failErr: e, once: true, withErr: true}, e.Error()
+				}})
+				vt.match(c, content, v2MatchOpts{api: "MatchFrom", reader: func(data []byte) (interface{ Read([]byte) (int, error) }, string) {
+					return &v2ChunkReader{data: data, chunks: fr2, failAt: o, failErr: io.ErrUnexpectedEOF, withErr: k%2 == 0}, io.ErrUnexpectedEOF.Error()
+				}})
+			}
 		}
 		vt.reset(false)
 	}
